@@ -88,11 +88,18 @@ def make_series(eng, ctx, tag=''):
     shapes = ctx['shapes']
     vals = ctx['values']
     series = []
+    pats = ctx.get('patterns')
     for i, n in enumerate(shapes):
-        H = [vals[eng.choose(len(vals), 'H')] for _ in range(n)]
+        if pats:
+            H = list(pats[eng.choose(len(pats), 'P')])
+        else:
+            H = [vals[eng.choose(len(vals), 'H')] for _ in range(n)]
         t = [eng.real('t%d_%d' % (i, k)) for k in range(n)]
         for a, b in zip(t, t[1:]):
             eng.assume(a < b)
+        for k, h in enumerate(H):
+            # engine choices are not model values: record them so that a failure replays directly
+            eng._register('H%d_%d' % (i, k), symx.SymReal(z3.RealVal(h)))
         series.append((t, H))
     return series
 
@@ -116,6 +123,7 @@ def series_components(series, step):
 
 
 SINGLE = 'C08: a main body of one interval is not assembled'
+TIE = 'C08: two equally large groups - which one is kept depends on the presentation order'
 
 
 def may_pick_single(lv):
@@ -164,7 +172,11 @@ def harness_invariance(eng, ctx):
                   'C08: level lists exactly the intervals crossing it')
     # second run: permuted order, per-series axis shift
     perms = list(itertools.permutations(range(n)))
+    if ctx.get('few_perms'):
+        perms = [tuple(range(n)), tuple(reversed(range(n))), tuple(range(1, n)) + (0,)]
     perm = perms[eng.choose(len(perms), 'perm')]
+    for i, pi in enumerate(perm):
+        eng._register('perm%d' % i, symx.SymInt(z3.IntVal(pi)))
     shifts = [eng.real('shift%d' % i) for i in range(n)]
     series2 = [([v + shifts[i] for v in series[i][0]], series[i][1]) for i in perm]
     try:
@@ -174,7 +186,10 @@ def harness_invariance(eng, ctx):
         return
     idx2 = [perm[int(i)] for i in idx2]          # back to the original numbering
     off2 = dict(zip(idx2, list(off2)))
-    if not eng.prove(sorted(idx2) == sorted(idx1), 'C08: same intervals included after permutation / axis shift'):
+    big = max(len(a) for a, _ in comps)
+    tie = sum(1 for a, _ in comps if len(a) == big) > 1
+    lab = (TIE if tie else 'C08: same intervals included after permutation / axis shift')
+    if not eng.prove(sorted(idx2) == sorted(idx1), lab, detail='%r vs %r' % (sorted(idx1), sorted(idx2))):
         return
     eng.prove(set(int(k) for k in map2) == set(int(k) for k in map1), 'C08: same levels after permutation')
     # aligned value of interval s at level m: offset + crossing.  The property allows the
@@ -302,6 +317,18 @@ class C08(Check):
                                     'single_series_total': True},
                                    name='offsets[shape=%s,step=%s]' % (''.join(map(str, sh)), step))
                 self.absorb(exp, need_paths=2)
+        # four series (two groups of two can abut without sharing a level): two-sample
+        # patterns only, three presentation orders
+        half = Fraction(1, 2)
+        pats = [(a * half, b * half) for a in (1, 3, 5) for b in (1, 3, 5) if a < b]
+        if not quick:
+            pats = [(a * half, b * half) for a in (1, 3, 5) for b in (1, 3, 5) if a != b] + [(Fraction(1), Fraction(2)), (half, half)]
+        exp = symx.explore(harness_invariance,
+                           {'shapes': (2, 2, 2, 2), 'values': vals, 'patterns': pats, 'few_perms': True, 'step': Fraction(1),
+                            'seed': self.seed, 'replay_every': 9, 'single_series_total': True},
+                           name='offsets[shape=2222,step=1]')
+        self.absorb(exp, need_paths=2)
+        self.bounds['four series'] = 'two-sample patterns %s, 3 presentation orders' % [tuple(str(v) for v in q) for q in pats]
         for f in self.failures:
             f['ctx'] = f['harness']
 
@@ -341,75 +368,59 @@ class C08(Check):
 
 
 def replay_invariance_failure(failure, m, info):
-    """Re-run get_series_time_offsets for every level pattern of the harness family until
-    the failure shows on the real code (the patterns are engine choices, not model values)."""
+    """Re-run get_series_time_offsets of the real module on the failing level patterns,
+    abscissae, order and shifts (all recorded in the model)."""
     import re
     h = failure['harness']
     mm = re.match(r'offsets\[shape=(\d+),step=([^\]]+)\]', h)
     shapes = tuple(int(c) for c in mm.group(1))
     step = Fraction(mm.group(2))
     real = loader.real_module('spowtd.fit_offsets')
-    import numpy as np
-    vals = VALUE_SETS['thorough']
     n = len(shapes)
     info['entry'] = 'spowtd.fit_offsets.get_series_time_offsets'
-    tried = 0
-    for Hs in itertools.product(*[itertools.product(vals, repeat=k) for k in shapes]):
-        series = [([None] * k, list(H)) for k, H in zip(shapes, Hs)]
-        lv = series_components(series, step)
-        if not lv:
-            continue
-        for perm in itertools.permutations(range(n)):
-            tried += 1
-            if tried > 60000:
-                info['observed'] = 'not reproduced in %d runs' % tried
-                return False, info
-            s1 = concrete_series(series, m)
-            s2 = concrete_series(series, m, shifts=True, perm=perm)
-            res = []
-            exc = None
-            for s in (s1, s2):
-                try:
-                    res.append(real.get_series_time_offsets(s, float(step)))
-                except Exception as e:
-                    exc = e
-                    break
-            if exc is not None:
-                single = may_pick_single(lv)
-                if failure.get('kind') == 'exception' and failure['detail'].startswith(type(exc).__name__) and \
-                        (single == ('one interval' in failure.get('label', ''))):
-                    info['observed'] = {'series': [(a.tolist(), b.tolist()) for a, b in s1], 'perm': perm,
-                                        'exception': '%s: %s' % (type(exc).__name__, exc)}
-                    return True, info
-                continue
-            if failure.get('kind') == 'exception':
-                continue
-            (i1, o1, m1), (i2, o2, m2) = res
-            i2 = [perm[int(i)] for i in i2]
-            d1 = dict(zip([int(i) for i in i1], [float(v) for v in o1]))
-            d2 = dict(zip(i2, [float(v) for v in o2]))
-            comps = true_components(lv)
-            body = [c for c in comps if set(d1) & c[1]]
-            bad = None
-            if len(body) != 1:
-                bad = 'included intervals span several groups'
-            else:
-                bl, bs = body[0]
-                multi = {i for mlev in bl for i in lv[mlev] if len(lv[mlev]) > 1}
-                if set(d1) != set(bs) and set(d1) != multi:
-                    bad = 'included %r but main body is %r' % (sorted(d1), sorted(bs))
-                elif any(len(a) > len(bl) and len(b) > len(bs) for a, b in comps):
-                    bad = 'a larger group exists'
-                elif not ({mlev for mlev in bl if len(lv[mlev]) > 1} <= set(int(k) for k in m1) <= set(bl)):
-                    bad = 'output levels are not main body levels / miss a shared level'
-            if bad is None and sorted(d1) != sorted(d2):
-                bad = 'different intervals after permutation'
-            if bad is None:
-                scale = max([1.0] + [abs(v) for a, _ in s1 + s2 for v in a.tolist()])
-                bad = aligned_ok(d1, d2, m1, m2, perm, scale)
-            if bad:
-                info['observed'] = {'series': [(a.tolist(), b.tolist()) for a, b in s1], 'perm': perm,
-                                    'offsets': d1, 'offsets_permuted': d2, 'problem': bad}
-                return True, info
-    info['observed'] = 'not reproduced in %d runs' % tried
-    return False, info
+    series = [([None] * k, [Fraction(m.get('H%d_%d' % (i, j), 0)) for j in range(k)]) for i, k in enumerate(shapes)]
+    perm = tuple(int(m.get('perm%d' % i, i)) for i in range(n))
+    lv = series_components(series, step)
+    s1 = concrete_series(series, m)
+    s2 = concrete_series(series, m, shifts=True, perm=perm)
+    info['series'] = [(a.tolist(), b.tolist()) for a, b in s1]
+    info['perm'] = perm
+    res = []
+    for sx in (s1, s2):
+        try:
+            res.append(real.get_series_time_offsets(sx, float(step)))
+        except Exception as e:
+            info['observed'] = '%s: %s' % (type(e).__name__, e)
+            if failure.get('kind') == 'exception' and failure['detail'].startswith(type(e).__name__):
+                return (may_pick_single(lv) if lv else False) == ('one interval' in failure.get('label', '')), info
+            return False, info
+    if failure.get('kind') == 'exception':
+        info['observed'] = 'no exception'
+        return False, info
+    (i1, o1, m1), (i2, o2, m2) = res
+    i2 = [perm[int(i)] for i in i2]
+    d1 = dict(zip([int(i) for i in i1], [float(v) for v in o1]))
+    d2 = dict(zip(i2, [float(v) for v in o2]))
+    comps = true_components(lv)
+    body = [c for c in comps if set(d1) & c[1]]
+    bad = None
+    if len(body) != 1:
+        bad = 'included intervals span several groups'
+    else:
+        bl, bs = body[0]
+        multi = {i for mlev in bl for i in lv[mlev] if len(lv[mlev]) > 1}
+        if set(d1) != set(bs) and set(d1) != multi:
+            bad = 'included %r but main body is %r' % (sorted(d1), sorted(bs))
+        elif any(len(a) > len(bl) and len(b) > len(bs) for a, b in comps):
+            bad = 'a larger group exists'
+        elif not ({mlev for mlev in bl if len(lv[mlev]) > 1} <= set(int(k) for k in m1) <= set(bl)):
+            bad = 'output levels are not main body levels / miss a shared level'
+    if bad is None and sorted(d1) != sorted(d2):
+        bad = 'different intervals after permutation: %r vs %r' % (sorted(d1), sorted(d2))
+    if bad is None:
+        scale = max([1.0] + [abs(v) for a, _ in s1 + s2 for v in a.tolist()])
+        bad = aligned_ok(d1, d2, m1, m2, perm, scale)
+    info['observed'] = {'offsets': d1, 'offsets_permuted': d2, 'problem': bad}
+    return bool(bad), info
+
+
